@@ -114,6 +114,22 @@ Example ex_lazy_internal : reports_ops Internal 16 [OUse; OUse; OInit 3; OUse; O
                         /\ w_ts (run_ops Internal 16 [OUse]) = Some 16 /\ w_handle (run_ops Internal 16 [OUse]) = None.
 Proof. repeat split. Qed.
 
+(* ---- OpenMP: the limit is per-thread state (nthreads-var ICV) ----
+   a loop issued by the INITIALISING thread forks a team of the last positive n (= what numTaskingThreads() reports) ... *)
+Theorem omp_bound_initialising_thread : forall hw t ns n, 0 < n ->
+  omp_loop_team hw (omp_inits t (ns ++ [n])) t = n /\ omp_loop_team hw (omp_inits t (ns ++ [n])) t = report OMP hw (run OMP hw (ns ++ [n])).
+Proof. exact omp_bound_init. Qed.
+Print Assumptions omp_bound_initialising_thread.
+(* ... but a loop issued by ANY OTHER thread is not limited at all: its team has the hardware default size
+   (open finding C13-omp-limit-applies-to-initialising-thread-only) *)
+Theorem omp_other_thread_unlimited_refuted :
+  exists hw t u n, u <> t /\ 0 < n /\ n < omp_loop_team hw (omp_inits t [n]) u /\ report OMP hw (run OMP hw [n]) = n.
+Proof. exact omp_other_unlimited. Qed.
+Print Assumptions omp_other_thread_unlimited_refuted.
+Theorem omp_other_thread_team_is_hardware_default : forall hw t u ns, u <> t -> omp_loop_team hw (omp_inits t ns) u = hw.
+Proof. exact omp_other_thread. Qed.
+Print Assumptions omp_other_thread_team_is_hardware_default.
+
 (* non-vacuity *)
 Example ex_tbb : reports TBB 16 [4; 2; 0; 3] = [0; 4; 2; 16; 3].
 Proof. reflexivity. Qed.
